@@ -126,7 +126,26 @@ def run(res, tier, seed, wd, replay=None):
                    "seed": seed, "trace_excerpt": run_segment(events, runline, upto=line)[-60:]}
         for tp in targets:
             res.flag(tp, "%s:%s" % (prop, rule), {"kind": kind, "run_line": runline, "line": line, "event": events[line - 1]}, payload)
-    ntr = sd["runs"] + sc["runs"]
+    # ---- the shared client over a queuing wrapper over a buffered sink, 2-3 producers emitting and flushing (stack driver):
+    # C12's promise - every acknowledged metric once and whole, each thread's metrics in its program order - then rests on the
+    # queue handing over in acceptance order to ONE consumer; both levels of the same executions are judged
+    tq, tw, nstack = stack_traces(res, tier, seed, wd)
+    vq = validate_trace("QueueTrace", tq, wd, timeout=3000, tag="stackq")
+    vw = validate_trace("WriterTrace", tw, wd, timeout=3000, tag="stackw")
+    for v2, path, level in ((vq, tq, "queue"), (vw, tw, "writer")):
+        evs2 = read_ndjson(path) if v2["bad"] else []
+        for prop, rule, runline, line in v2["bad"]:
+            head = evs2[runline - 1]
+            if head.get("producers", 1) < 2:
+                continue            # single-producer stack runs belong to the writer / queue engines
+            if level == "queue" and prop not in ("C08", "C20"):
+                continue            # order / exactly-once / loss of accepted metrics (and panics); other queue rules are not C12
+            payload = {"engine": "sock", "origin": {"how": "stack-drive", "run": head.get("run"), "level": level}, "seed": seed,
+                       "trace_excerpt": run_segment(evs2, runline, upto=line)[-60:]}
+            for tp in ({"C12", "C20"} if prop == "C20" else {"C12"}):
+                res.flag(tp, "%s:%s" % (prop, rule), {"kind": "stack-%s-level" % level, "run_line": runline, "line": line, "event": evs2[line - 1]}, payload)
+        res.add_tlc({"distinct": v2["states"], "generated": v2["states"]})
+    ntr = sd["runs"] + sc["runs"] + nstack
     res.cov["traces_validated_against_impl"] = ntr
     res.cov["evaluations"] = nev
     res.cov["distinct_nontrivial"] = ntr
